@@ -504,6 +504,11 @@ def oracle_c09(tr, sc):
             ad = (n, p)
     M = br['max_restarts']
     K = cfg['step']['maxiter']
+    conv_class = ad is not None and ad[0] in ('AdaptivityPolynomialError', 'AdaptivityExtrapolationWithinQ')
+    est_key = 'e_extrap' if (ad is not None and ad[0] == 'AdaptivityExtrapolationWithinQ') else 'e_est'
+    if est_key != 'e_est':
+        for a in ctx.attempts:
+            a['e_est'] = a.get('e_extrap')
     by_block = {}
     for a in ctx.attempts:
         by_block.setdefault(a['block'], []).append(a)
@@ -566,7 +571,7 @@ def oracle_c09(tr, sc):
             # R6: the retry of a rejected step uses a smaller step, unless a lower limit binds
             rej = atts[r]
             own = ad is not None and rej.get('e_est') is not None and rej['e_est'] >= ad[1]['e_tol'] and (b, r) not in scripted_restarts
-            if own and rej.get('iter', 0) >= K:
+            if own and (rej.get('iter', 0) >= K or conv_class):
                 dmin = ad[1].get('dt_min', 0)
                 smin = ad[1].get('dt_slope_min', 0)
                 new = nxt[0]['dt']
@@ -586,7 +591,7 @@ def oracle_c09(tr, sc):
     if ad is not None:
         e_tol = ad[1]['e_tol']
         for a in ctx.attempts:
-            if a.get('accepted') and a.get('e_est') is not None and a.get('iter', 0) >= K:
+            if a.get('accepted') and a.get('e_est') is not None and (a.get('iter', 0) >= K or conv_class):
                 first = by_block[a['block']][0]
                 if a['e_est'] > e_tol and (first['restarts_in_a_row'] or 0) < M:
                     V('R4_accept_criterion', 'Adaptivity.determine_restart', f'step at t={a["t"]!r} accepted with e_est={a["e_est"]:.6e} > e_tol={e_tol:.6e} after {first["restarts_in_a_row"]} restart(s), budget {M}')
@@ -599,8 +604,29 @@ def oracle_c09(tr, sc):
         else:
             order = K
         raw = {}
+        fac = ad[1].get('factor_if_not_converged', 4.0)
         for c in ctx.cc:
             key = (c['block'], c['slot'], c['iter'])
+            if conv_class and c['at'] == 'raw':
+                e_now = c['e_extrap'] if ad[0] == 'AdaptivityExtrapolationWithinQ' else c['e_est']
+                if c['restart'] and c['force_done'] and c['dt_new'] is not None:
+                    # non-convergence path: step size divided by factor_if_not_converged
+                    want = c['dt'] / fac
+                    if abs(c['dt_new'] - want) > 8 * EPS * abs(want):
+                        V('R5_proposal_formula', type_name(ad[0]), f'non-converged collocation problem: dt_new={c["dt_new"]!r}, dt/{fac}={want!r}')
+                    res.probe('collocation_problem_not_converged_restart')
+                elif c['converged_now'] and e_now is not None and c['dt_new'] is not None and e_now > 0:
+                    if ad[0] == 'AdaptivityPolynomialError':
+                        order_c = c['order_est']
+                    else:
+                        order_c = c['num_nodes'] + 1 if ad[1].get('high_Taylor_order') else c['num_nodes']
+                    if order_c:
+                        want = beta * c['dt'] * (e_tol / e_now) ** (1.0 / order_c)
+                        if abs(c['dt_new'] - want) > 8 * EPS * abs(want):
+                            V('R5_proposal_formula', type_name(ad[0]), f'proposed dt_new={c["dt_new"]!r}, beta*dt*(tol/err)^(1/{order_c})={want!r} (dt={c["dt"]!r}, err={e_now!r})')
+                        raw[key] = c
+                        res.probe('converged_collocation_proposal_checked')
+                continue
             if c['at'] == 'raw' and c['iter'] == K and c['e_est'] is not None and c['dt_new'] is not None:
                 want = beta * c['dt'] * (e_tol / c['e_est']) ** (1.0 / order)
                 if abs(c['dt_new'] - want) > 8 * EPS * abs(want):
